@@ -121,9 +121,10 @@ PROPS.update({
              ['library contracts (L): rich comparisons, `in` and re.search on dynamically typed values are uninterpreted predicates', 'SMT string theory of z3/cvc5',
               'semantics of a list comprehension with a condition (the elements that satisfy it, in order) is the assumed contract of the built-in (T1)'], design_ref='8/C18'),
     'C20': P('other', 'contract-based deductive verification of utils.py with an abstract text theory (len, visible length, concatenation, spaces): colored_text has visible width max(len(text), width); '
-             '_TextTableRow.repr has visible width sum(width_i + 2) plus the borders, for every number of columns (loop invariant) given that every cell fits its column. Level `other`: TextTable.text_repr '
-             '(column widths = longest cell, one line per row), _Repr (rows = depth-first listing, indentation, link cells) and the usage table are covered by the bounded stand-in only.',
-             ['TextTable.text_repr', '_Repr.repr / __print_task_subtree / __get_field_value', 'ResourceUsageReport.__repr__'],
+             '_TextTableRow.repr has visible width sum(width_i + 2) plus the borders, is one line and not empty, for every number of columns (loop invariant) given that every cell fits its column; '
+             'TextTable.text_repr computes column widths that every cell fits (two nested loops over a dict whose keys are shown to stay 0..n-1 in insertion order) and returns one line per row, every line of the same visible width. '
+             'Level `other`: _Repr (rows = depth-first listing, indentation, link cells) and the usage table are covered by the bounded stand-in only.',
+             ['_Repr.repr / __print_task_subtree / __get_field_value', 'ResourceUsageReport.__repr__'],
              ['abstract text theory T3: additive len/vis equations for str concatenation and repetition', 'pre-condition: bg_color is None at every call (true of all call sites in the repository)'], design_ref='8/C20'),
     'C13': P('other', 'contract-based deductive verification of the field-level inverse pairs: the five cell parsers of csv_io.py are proved against their specification, and for every default column the cell '
              'expression of write_csv (taken from the real AST) rendered by the csv writer and read back by the parser specification is proved equivalent to the field (None ~ empty text); the TaskRaw fields built by '
